@@ -1,5 +1,6 @@
 """C20 - queries are pure and composite objects own their data."""
 import copy
+from fractions import Fraction
 import random
 
 from g3dvc.runner import Group
@@ -106,6 +107,19 @@ def _native_snapshot(o):
     return snapshot(o)
 
 
+def B_same(r1, r2):
+    from g3dvc import bounded as B_
+    return B_.same_lib_result(r1, r2)
+
+
+def _chord(g, body):
+    """the line through the two lexicographically smallest vertices of a polygon / polyhedron (independent of vertex and face order; keys rounded so
+    that float noise of a moved object does not reorder ties)"""
+    pts = list(body.points) if isinstance(body, g.ConvexPolygon) else list(body.point_set)
+    pts.sort(key=lambda p: (round(float(p.x), 6), round(float(p.y), 6), round(float(p.z), 6)))
+    return g.Line(copy.deepcopy(pts[0]), copy.deepcopy(pts[1]))
+
+
 def _class_state(g):
     """public data attributes stored on the library's classes (private class-level caches are not observable by themselves; what they do to answers is compared by the repeated queries and the factory clauses)"""
     out = []
@@ -134,21 +148,42 @@ def bounded_interleavings(seed, n_hist, steps):
         if len(failures) < 6 and klass not in [f["class"] for f in failures]:
             failures.append({"class": klass, "what": what, "case": case})
 
+    exacts = {}
+
     def make_pool():
         pool = []
+        exacts.clear()
+        descr = []
         for kind in ("Point", "Line", "HalfLine", "Segment", "Plane"):
             for o in K.flat_objects(kind, rng, 2):
                 R, t, k = K.random_pose(rng)
-                pool.append(O.to_lib(K.transform(o, R, t, k), "float"))
-        for pg in K.polygons(rng, 2):
-            pool.append(O.to_lib(pg, "float"))
-        for ph in K.polyhedra(rng, 2):
-            pool.append(O.to_lib(ph, "float"))
+                descr.append(K.transform(o, R, t, k))
+        descr += list(K.polygons(rng, 2)) + list(K.polyhedra(rng, 2))
+        for ex in descr:
+            lib = O.to_lib(ex, "float")
+            pool.append(lib)
+            exacts[id(lib)] = ex
         return pool
+
+    def close(x, y):
+        return abs(x - y) <= 1e-9 * max(1.0, abs(x), abs(y))
+
+    def same_answer(qn, r1, r2):
+        from g3dvc import bounded as B_
+        if qn == "intersection":
+            return B_.same_lib_result(r1, r2)
+        if qn in ("in", "==", "parallel", "orthogonal"):
+            return bool(r1) == bool(r2)
+        if qn in ("distance", "angle"):
+            return close(r1, r2)
+        if qn == "measures":
+            return len(r1) == len(r2) and all(close(x, y) for x, y in zip(r1, r2))
+        return True  # hash / repr of a moved object carry float noise in the last digits: compared by the repeated query above only
 
     queries = [
         ("intersection", lambda a, b: g.intersection(a, b)), ("in", lambda a, b: a in b), ("==", lambda a, b: a == b), ("hash", lambda a, b: (hash(a), hash(b))),
         ("repr", lambda a, b: (repr(a), repr(b))), ("distance", lambda a, b: g.distance(a, b)), ("angle", lambda a, b: g.angle(a, b)), ("parallel", lambda a, b: g.parallel(a, b)),
+        ("intersection", lambda a, b: g.intersection(a, _chord(g, a)) if isinstance(a, (g.ConvexPolygon, g.ConvexPolyhedron)) else g.intersection(b, a)),  # a line inside the plane / through two vertices
         ("orthogonal", lambda a, b: g.orthogonal(a, b)), ("measures", lambda a, b: [getattr(x, m)() for x in (a, b) for m in ("length", "area", "volume") if hasattr(x, m)]),
     ]
     for hnum in range(n_hist):
@@ -181,6 +216,24 @@ def bounded_interleavings(seed, n_hist, steps):
                 fail(klass, "repeating the query gave a different answer", dict(query=qn, a=repr(a), b=repr(b), first=repr(r1), second=repr(r2)))
             if len(samples) < 2 and ok1:
                 samples.append(dict(query=klass, a=repr(a)[:80], b=repr(b)[:80]))
+            # the same question about objects freshly built at the current positions (the pool objects have a history of queries and in-place moves)
+            try:
+                fa, fb = O.to_lib(exacts[id(a)], "float"), O.to_lib(exacts[id(b)], "float")
+                rf, okf = q(fa, fb), True
+            except Exception as e:
+                rf, okf = repr(type(e)), False
+            if ok1 != okf or (ok1 and not same_answer(qn, r1, rf)):
+                fail("history:" + klass, "an object with a history of queries and in-place moves answers differently from a freshly built equal object",
+                     dict(query=qn, a=repr(a), b=repr(b), answer=repr(r1)[:200], fresh=repr(rf)[:200]))
+            # now and then an object of the pool is moved in place (a legitimate mutation; its description moves along)
+            if rng.random() < 0.2:
+                x = rng.choice(pool)
+                mv = tuple(Fraction(rng.randint(-4, 4), rng.choice((1, 2))) for _ in range(3))
+                try:
+                    x.move(V(*[O.to_number(c, "float") for c in mv]))
+                    exacts[id(x)] = K.transform(exacts[id(x)], K.IDENTITY, mv, 1)
+                except Exception as e:
+                    fail("history:move", "move raised %r" % (e,), dict(obj=repr(x)))
             # hidden state behind the query (memoised results, cached helper objects): the caller mutates the object it was handed, or moves an
             # operand; the same question about unchanged / equal operands must still get the first answer
             if qn == "intersection" and ok1 and r1 is not None and hasattr(r1, "move"):
@@ -222,6 +275,36 @@ def bounded_interleavings(seed, n_hist, steps):
                         if r4 != first and not same(r4v):
                             fail("requery:" + klass, "an operand was moved in place after the query; equal operands at the old position got a different answer",
                                  dict(query=qn, a=repr(a0), b=repr(b0), first=first, second=r4))
+        # every body of the pool: ask for its measures (whatever is computed on first use is computed now), move it in place, then ask questions whose
+        # answers depend on the edges and faces; a freshly built equal body must give the same answers
+        for x in list(pool):
+            if not isinstance(x, (g.ConvexPolygon, g.ConvexPolyhedron, g.Segment, g.HalfLine)):
+                continue
+            kname = "history:measure-move-probe(%s)" % type(x).__name__
+            try:
+                for m in ("length", "area", "volume"):
+                    if hasattr(x, m):
+                        getattr(x, m)()
+                hash(x)
+                mv = (Fraction(3, 2), Fraction(-2), Fraction(1, 2))
+                x.move(V(*[O.to_number(c, "float") for c in mv]))
+                exacts[id(x)] = K.transform(exacts[id(x)], K.IDENTITY, mv, 1)
+                fx = O.to_lib(exacts[id(x)], "float")
+                ev += 1
+                classes.add(kname)
+                if isinstance(x, (g.ConvexPolygon, g.ConvexPolyhedron)):
+                    probes_ = [("chord", lambda o: g.intersection(o, _chord(g, o))), ("length", lambda o: o.length()), ("area", lambda o: o.area())]
+                else:
+                    probes_ = [("carrier", lambda o: g.intersection(o, g.Line(o.line.sv, o.line.dv))), ("hash", lambda o: 0)]
+                for pn, pf in probes_:
+                    r1, rf = pf(x), pf(fx)
+                    okp = B_same(r1, rf) if not isinstance(r1, (int, float)) else close(r1, rf)
+                    if not okp:
+                        fail(kname, "after measures and an in-place move, %s gives %r; on a freshly built equal object %r" % (pn, r1, rf), dict(obj=repr(x)))
+                if not (x == fx and fx == x and hash(x) == hash(fx)):
+                    fail(kname, "after measures and an in-place move the object is not == / hash-equal to a freshly built equal object", dict(obj=repr(x)))
+            except Exception as e:
+                fail(kname, "raised %r" % (e,), dict(obj=repr(x)))
         # factory functions keep returning what their names say after their results were mutated / used in moved objects
         z = g.Vector.zero()
         g.Line(z, V(1, 2, 2)).move(V(2, -1, 2))
